@@ -73,6 +73,34 @@ func runC20(p *load.Program, r *oblig.Report) {
 		},
 	}
 	cfg.BoundFields = map[string]bool{"remain": true}
+	// RecordSet.ReadFrom creates a stand-in decoder when it is handed a reader that is not a decoder (the public
+	// io.ReaderFrom use of a record set): that path is not part of the Transport/Client stack the property
+	// quantifies over, and there the announced size is its own bound.
+	cfg.OutOfScopeEdge = func(phi *ssa.Phi, i int) (string, bool) {
+		pred := phi.Block().Preds[i]
+		for d, child := pred.Idom(), pred; d != nil; d, child = d.Idom(), d {
+			_, ci := an.IfCond(d)
+			if ci == nil {
+				continue
+			}
+			// `d == nil` with d the result of r.(*decoder), possibly through a flag
+			c := clean(an.Shape(ci.X))
+			if ci.Op == token.ILLEGAL || an.IsNilConst(ci.Y) {
+				if strings.Contains(c, ".(*decoder)") && (edgeControls(d, 0, child) || edgeControls(d, 1, child)) {
+					nilIdx := 0
+					if e := ci.Edge(token.EQL); e >= 0 {
+						nilIdx = e
+					} else if ci.Neg {
+						nilIdx = 1
+					}
+					if edgeControls(d, nilIdx, child) {
+						return "on the path where the reader is not a *decoder (public io.ReaderFrom use, outside the Transport/Client stack) the size bounds itself", true
+					}
+				}
+			}
+		}
+		return "", false
+	}
 	cfg.Sanitized = func(ins ssa.Instruction) bool {
 		_, ok := crcCovered(p, an.TaintSink{Fn: ins.Parent(), Ins: ins})
 		return ok
